@@ -193,7 +193,11 @@ class Spec:
     def key(self, st):
         m = st.doc._model
         fp = sorted((k, len(v) if hasattr(v, "__len__") else 1) for k, v in m._cache.items())
-        return repr(st.ref) + repr(st.loaded) + repr(fp)
+        # hidden state of the collections themselves (anything besides the item list: cached name sets ...)
+        skip = ("_items", "_model", "_data", "_cache")
+        colls = [explore.generic_fingerprint(st.doc._sheets, skip)] + [explore.generic_fingerprint(s._tables, skip) for s in st.doc.sheets]
+        items = [explore.generic_fingerprint(s, ("_tables", "_model")) for s in st.doc.sheets]
+        return repr(st.ref) + repr(st.loaded) + repr(fp) + repr(colls) + repr(items)
 
 
 SPECS = {
